@@ -24,7 +24,10 @@ impl edp_node::Process for Stalled {
                 self.gate.notified().await;
             }
         }
-        self.log.lock().unwrap().push(json!({"k": "regular"}));
+        match &msg {
+            edp_node::Message::Regular { body: OwnedTerm::Integer(i), .. } => self.log.lock().unwrap().push(json!(i)),
+            _ => self.log.lock().unwrap().push(json!({"k": "other"})),
+        }
         Ok(())
     }
 }
@@ -88,8 +91,17 @@ pub fn run(args: &[String]) -> i32 {
             }
             tokio::time::sleep(Duration::from_millis(5)).await;
         }
+        // everything the peer wrote for the slow process, in the order it was written
+        let want = written;
+        let t2 = Instant::now();
+        while slog.lock().unwrap().len() < want + 1 && t2.elapsed() < Duration::from_millis(5000) {
+            tokio::time::sleep(Duration::from_millis(10)).await;
+        }
+        let got: Vec<i64> = slog.lock().unwrap().iter().filter_map(|x| x.as_i64()).collect();
+        let in_order = got.iter().enumerate().all(|(i, x)| *x == i as i64);
+        let first_gap = got.iter().enumerate().find(|(i, x)| **x != *i as i64).map(|(i, x)| json!({"position": i, "message": x}));
         tokio::time::sleep(Duration::from_millis(100)).await;
-        w.put(&json!({"mailbox_capacity": cap, "messages_for_the_slow_process": written, "fast_got_its_message_while_the_slow_one_was_stalled": fast_got_while_stalled,
+        w.put(&json!({"delivered_to_the_slow_process": got.len(), "delivered_in_order_without_gaps": in_order && got.len() == want, "first_gap": first_gap,"mailbox_capacity": cap, "messages_for_the_slow_process": written, "fast_got_its_message_while_the_slow_one_was_stalled": fast_got_while_stalled,
                       "waited_ms": waited_ms, "fast_got_its_message_after_the_slow_one_resumed": fast_got_after_resume, "ms_after_resume": t1.elapsed().as_millis() as u64,
                       "slow_handled_in_the_end": slog.lock().unwrap().len(), "still_connected": node.connections().contains_key("peer@127.0.0.1")}));
     });
